@@ -50,6 +50,10 @@ log = logging.getLogger('chameleon.loader')
 
 def cache(func: _F) -> _F:
     def load(self: Any, *args: Any, **kwargs: Any) -> Any:
+        # The name is looked up the way it is resolved: without
+        # surrounding whitespace
+        if args and isinstance(args[0], str):
+            args = (args[0].strip(), ) + args[1:]
         template = self.registry.get(args)
         _verif_point("load.lookup", found=template is not None)
         if template is None:
